@@ -15,7 +15,7 @@ ENTRIES = [
      "witness": {"dA": 3, "dB": 3, "idx": [0, 2], "w": [1, 3], "level": 2, "ppt": True}, "what": _WHAT},
     {"id": "KF-C15-separable-final-return", "status": "open", "property": "C15", "clause": "C15.separable",
      "site": "is_separable:separable_declared_entangled:final_return",
-     "input_class": "separable state of total dimension > 6 that reaches is_separable's final symmetric-extension search (traced return site = last return)",
+     "input_class": "one of the separable inputs listed in mc/kf/c15_witness.json (structured, seed-independent mixtures of product states of total dimension > 6 on which the unchanged tree reaches the final symmetric-extension search)",
      "input_class_fn": "c15_final_return", "as_is": "c15_final_false",
      "witness": {"kind": "separable", "dA": 3, "dB": 3, "idx": [0, 1, 2], "w": [1, 1, 2], "dimform": "list"}, "what": "consequence in is_separable: " + _WHAT},
 ]
@@ -32,9 +32,27 @@ def _a1(case, res):
     return res.get("observed") is False
 
 
+_WITNESS = None
+
+
+def _witness():
+    global _WITNESS
+    if _WITNESS is None:
+        import json
+        import os
+
+        with open(os.path.join(os.path.dirname(os.path.abspath(__file__)), "c15_witness.json")) as fh:
+            _WITNESS = {w["key"] for w in json.load(fh)["witnesses"]}
+    return _WITNESS
+
+
 @input_class("c15_final_return")
 def _c2(case, res):
-    return case.get("kind") == "separable" and case["dA"] * case["dB"] > 6
+    # listed one by one (tools/gen_c15_witness.py, run by hand on the unchanged tree): a separable input that is declared
+    # entangled but is NOT in this list - e.g. because an earlier sufficient criterion stopped certifying it - is a VIOLATION
+    from mc.engine import case_key
+
+    return case.get("kind") == "separable" and case["dA"] * case["dB"] > 6 and case_key(case) in _witness()
 
 
 @as_is("c15_final_false")
